@@ -1,5 +1,5 @@
 (* Gen/GenC03x.v - three units of C03's own: a struct held BY VALUE as map entry that has nested
-   fields.  Until fix 2f8b339 the emitter assigned below such a field to a copy of the entry that
+   fields.  Until fix e955906 the emitter assigned below such a field to a copy of the entry that
    was never stored back (finding nested_in_map_entry, fixed; theorem
    C03_refuted_nested_in_map_entry is about the old emitter); the repaired emitter keeps the
    store-back of the entry pending for all the code below it, and the units are inside the sound
